@@ -182,6 +182,58 @@ func TestC04(t *testing.T) {
 		}, nil)
 }
 
+// C04 around the end of the lookup tables (index 999 / 1000): Vegas and Gradient estimates climb through 990..1010 with fractional values
+// (smoothing < 1) while drops, small queues and latency steps call every function that is table-backed below 1000 and computed above.
+func TestC04TableEdge(t *testing.T) {
+	tr := NewTrace("C04T")
+	rep := NewReport("C04T")
+	defer func() { tr.Close(); rep.Write(t) }()
+	root := NewRng(Seed())
+	nCases := Scale(12, 200)
+	for _, kind := range []int{1, 2} {
+		for ci := 0; ci < nCases; ci++ {
+			r := root.Fork()
+			l, c, st := newLimitCase(tr, rep, "C04", r, kind, 0, func(cfg *LimitCfg) {
+				sm := FBits([]float64{0.2, 0.5, 0.9, 0.05, 1.0}[r.Intn(5)])
+				if cfg.Kind == 1 {
+					cfg.P = []int64{r.Pick(985, 995, 998), r.Pick(1000, 1000, 1200, 3000), 30, sm}
+				} else {
+					cfg.P = []int64{r.Pick(985, 995, 998), 1, r.Pick(1000, 1200, 3000), -1, sm, FBits(2.0)}
+				}
+			})
+			if l == nil {
+				continue
+			}
+			name := limitKindNames[kind]
+			base := st.base
+			for i := 0; i < 260 && !l.Dead; i++ {
+				l.Now += 1000
+				rtt, inf, drop := base, p2(l)+1, false
+				switch r.Intn(8) {
+				case 0:
+					drop = true
+				case 1: // a small queue: est x (1 - base/rtt) of a few units
+					if e := l.EstFloat(); e > 8 {
+						rtt = int64(float64(base) / (1 - float64(r.Pick(1, 2, 4, 7, 13))/e))
+					}
+				case 2:
+					rtt = base * 2
+				}
+				_, o := c.sample(l, tr, l.Now, rtt, inf, drop)
+				rep.Distinct("table-edge", fmt.Sprint(kind, o.Est, drop))
+				if o.Panicked {
+					c.violate(name+":panic", "OnSample panicked near the end of the lookup tables: "+o.PanicVal)
+					break
+				}
+				if o.Est < 1 || o.Est > l.MaxL {
+					c.violate(name+":out-of-bounds", fmt.Sprintf("EstimatedLimit()=%d outside [1, %d]", o.Est, l.MaxL))
+				}
+			}
+			tr.End()
+		}
+	}
+}
+
 // ---------------- C06: a drop never raises the limit; sustained drops reach the floor ----------------
 func TestC06(t *testing.T) {
 	tr := NewTrace("C06")
